@@ -5,7 +5,7 @@
 # exit 2: the check itself is broken (build failure, harness error) — never a verdict about the property.
 cd /verif
 if [ -z "$VERIF_NOBUILD" ]; then
-  if ! /verif/build.sh > /verif/.work/build.log 2>&1; then
+  if ! /verif/build.sh "$1" > /verif/.work/build.log 2>&1; then
     echo "CHECK-BROKEN: build failed (see /verif/.work/build.log)"; tail -20 /verif/.work/build.log; exit 2
   fi
 fi
